@@ -117,6 +117,9 @@ def run_maximum_color(report, n, rng):
         plans.append((i, kind, sub, flags))
 
     plans.append((n, "picosvg with a glyph that paints nothing", random.Random(rng.getrandbits(48)), ["--bitmaps"]))
+    # coloured .notdef: the colour glyphs are two runs of glyph ids (one CBLC strike per run, several SVG documents)
+    plans.append((n + 1, "glyf_colr_1 with a coloured .notdef", random.Random(rng.getrandbits(48)), ["--bitmaps"]))
+    plans.append((n + 2, "picosvg with a coloured .notdef", random.Random(rng.getrandbits(48)), ["--bitmaps", "--keep_glyph_names"]))
 
     def empty_in_the_middle():
         H = '<svg xmlns="http://www.w3.org/2000/svg" viewBox="0 0 100 100">'
@@ -134,7 +137,10 @@ def run_maximum_color(report, n, rng):
             data, info = empty_in_the_middle()
             rc, log, out = c12.run_maximum_color(data, flags)
             return plan, info, rc, log, out
-        data, info = c12.nanoemoji_font(sub, kind, v0_expressible="0" in flags, bitmaps="--bitmaps" in flags)
+        if kind.endswith("coloured .notdef"):
+            data, info = c12.notdef_font(sub, kind.split()[0])
+        else:
+            data, info = c12.nanoemoji_font(sub, kind, v0_expressible="0" in flags, bitmaps="--bitmaps" in flags)
         rc, log, out = c12.run_maximum_color(data, flags)
         return plan, info, rc, log, out
 
